@@ -35,6 +35,80 @@ type Case struct {
 	SharedClients int    `json:"shared_clients"`  // 0 = every instance has its own client
 	Plain         *Plain `json:"plain,omitempty"`
 	Scen          *Scen  `json:"scenario,omitempty"`
+	// Rps: the sections of the rps schedule, which all instances of the pool share (no rps-per-instance): every instance
+	// asks the same schedule object for Left and Next around each of its shots, also while another instance moves it on to
+	// its next section. Empty = one `once` section.
+	Rps []Section `json:"rps_sections,omitempty"`
+	// RpsNested: the sections are written as {type: composite, nested: [..]} instead of as a plain list.
+	RpsNested bool `json:"rps_as_composite_plugin,omitempty"`
+	// Startup: how the instances are started; nil = all at once (`once`).
+	Startup *Startup `json:"startup,omitempty"`
+}
+
+// Section is one part of a composite schedule.
+type Section struct {
+	Type   string `json:"type"`                  // once | const | unlimited
+	Tokens int    `json:"tokens,omitempty"`      // once: times; const: the tokens the section holds (0 = a pause; ops is derived from it)
+	DurMs  int    `json:"duration_ms,omitempty"` // const, unlimited
+}
+
+// Startup describes a gradual start of the instances.
+type Startup struct {
+	Kind     string    `json:"kind"`               // composite | instance_step
+	Sections []Section `json:"sections,omitempty"` // composite: tokens add up to the number of instances
+	From     int       `json:"from,omitempty"`     // instance_step: From, From+Step, .. up to Instances
+	Step     int       `json:"step,omitempty"`
+	StepMs   int       `json:"step_duration_ms,omitempty"`
+}
+
+// constOps is the `ops` value that makes a const section of d ms hold exactly n tokens
+// (pandora: n = int64(ops * seconds); half a token of head room against float rounding).
+func constOps(n, dMs int) float64 {
+	if n <= 0 {
+		return 0
+	}
+	return float64(2*n+1) * 500 / float64(dMs)
+}
+
+// constTokens is pandora's own formula (schedule.NewConst) for the number of tokens of a const section.
+func constTokens(ops float64, dMs int) int {
+	return int(int64(ops * (float64(int64(dMs)*1e6) / 1e9)))
+}
+
+// finiteTokens: tokens held by the once / const sections.
+func finiteTokens(secs []Section) int {
+	n := 0
+	for _, s := range secs {
+		if s.Type != "unlimited" {
+			n += s.Tokens
+		}
+	}
+	return n
+}
+
+func validateSections(secs []Section, what string) error {
+	for i, s := range secs {
+		switch s.Type {
+		case "once":
+			if s.Tokens < 1 {
+				return fmt.Errorf("%s section %d: once needs times >= 1", what, i)
+			}
+		case "const":
+			if s.DurMs < 1 || s.Tokens < 0 {
+				return fmt.Errorf("%s section %d: const needs a duration >= 1ms and tokens >= 0", what, i)
+			}
+			if got := constTokens(constOps(s.Tokens, s.DurMs), s.DurMs); got != s.Tokens {
+				return fmt.Errorf("%s section %d: derived ops give %d tokens, wanted %d", what, i, got, s.Tokens)
+			}
+		case "unlimited":
+			if s.DurMs < 1 {
+				return fmt.Errorf("%s section %d: unlimited needs a duration >= 1ms", what, i)
+			}
+		default:
+			return fmt.Errorf("%s section %d: unknown type %q", what, i, s.Type)
+		}
+	}
+	return nil
 }
 
 // Plain describes the ammo of an http or grpc pool.
@@ -189,6 +263,105 @@ func (c Case) sharedObjects() []string {
 	return out
 }
 
+// scheduleClasses names the schedule objects of the pool (the rps schedule is shared by all instances).
+func (c Case) scheduleClasses() []string {
+	var out []string
+	if len(c.Rps) == 0 {
+		out = append(out, "rps_single_once")
+	} else {
+		out = append(out, "rps_composite", fmt.Sprintf("rps_composite_%d_sections", len(c.Rps)))
+		if c.RpsNested {
+			out = append(out, "rps_composite_as_plugin")
+		} else {
+			out = append(out, "rps_composite_as_list")
+		}
+		seen := map[string]bool{}
+		for _, s := range c.Rps {
+			k := "rps_section_" + s.Type
+			if s.Type == "const" && s.Tokens == 0 {
+				k = "rps_section_pause"
+			}
+			if !seen[k] {
+				seen[k] = true
+				out = append(out, k)
+			}
+		}
+	}
+	switch {
+	case c.Startup == nil:
+		out = append(out, "startup_once")
+	default:
+		out = append(out, "startup_gradual", "startup_"+c.Startup.Kind)
+		if c.Startup.Kind == "instance_step" && c.Startup.From == 0 {
+			out = append(out, "startup_instance_step_from_0")
+		}
+		if len(c.Rps) > 0 {
+			out = append(out, "rps_composite_with_gradual_startup")
+		}
+	}
+	return out
+}
+
+// genRps draws 2-4 short sections whose switches all happen while ammo is left: the once / const sections before
+// the last one hold fewer tokens than there are ammo, the last one holds the rest and five more (the ammo limit ends the run).
+func genRps(t *rapid.T, shots int) []Section {
+	k := min(rapid.IntRange(2, 4).Draw(t, "rpsSections"), shots)
+	secs := make([]Section, 0, k)
+	room := shots - 1 // tokens that may be given to the sections before the last one
+	used := 0
+	for i := 0; i < k-1; i++ {
+		n := rapid.IntRange(1, room-used-(k-2-i)).Draw(t, "sectionTokens")
+		typ := rapid.SampledFrom([]string{"once", "once", "once", "const", "const", "const", "pause", "unlimited"}).Draw(t, "sectionType")
+		switch typ {
+		case "once":
+			secs = append(secs, Section{Type: "once", Tokens: n})
+			used += n
+		case "const":
+			secs = append(secs, Section{Type: "const", Tokens: n, DurMs: rapid.IntRange(1, min(4, max(1, n/3))).Draw(t, "sectionMs")})
+			used += n
+		case "pause":
+			secs = append(secs, Section{Type: "const", DurMs: rapid.IntRange(1, 2).Draw(t, "sectionMs")})
+		case "unlimited":
+			secs = append(secs, Section{Type: "unlimited", DurMs: rapid.IntRange(1, 2).Draw(t, "sectionMs")})
+		}
+	}
+	rest := shots + 5 - used
+	if rapid.Bool().Draw(t, "lastConst") {
+		secs = append(secs, Section{Type: "const", Tokens: rest, DurMs: rapid.IntRange(1, min(4, max(1, rest/3))).Draw(t, "sectionMs")})
+	} else {
+		secs = append(secs, Section{Type: "once", Tokens: rest})
+	}
+	return secs
+}
+
+// genStartup draws a gradual start of all the instances over a few milliseconds.
+func genStartup(t *rapid.T, instances int) *Startup {
+	if rapid.Bool().Draw(t, "instanceStep") {
+		step := rapid.IntRange(1, min(4, instances)).Draw(t, "step")
+		steps := rapid.IntRange(1, min(4, instances/step)).Draw(t, "steps")
+		return &Startup{Kind: "instance_step", From: instances - step*steps, Step: step, StepMs: rapid.IntRange(1, 3).Draw(t, "stepMs")}
+	}
+	k := rapid.IntRange(2, min(3, instances)).Draw(t, "startupParts")
+	st := &Startup{Kind: "composite"}
+	left := instances
+	for i := 0; i < k; i++ {
+		n := left
+		if i < k-1 {
+			n = rapid.IntRange(1, left-(k-1-i)).Draw(t, "partInstances")
+		}
+		left -= n
+		if i > 0 && rapid.Bool().Draw(t, "partConst") {
+			st.Sections = append(st.Sections, Section{Type: "const", Tokens: n, DurMs: rapid.IntRange(1, 3).Draw(t, "partMs")})
+			continue
+		}
+		if i > 0 && st.Sections[len(st.Sections)-1].Type == "once" {
+			st.Sections = append(st.Sections, Section{Type: "const", DurMs: rapid.IntRange(1, 3).Draw(t, "pauseMs")}) // a pause
+		}
+		st.Sections = append(st.Sections, Section{Type: "once", Tokens: n})
+	}
+	return st
+}
+
 func genIndex(t *rapid.T, label string) string {
 	return rapid.SampledFrom([]string{"", "next", "next", "rand", "rand", "last", "last"}).Draw(t, label)
 }
@@ -289,6 +462,14 @@ func genCase(t *rapid.T, r *vf.Run) Case {
 	case kindGRPCScen:
 		c.Scen = genScen(t, true)
 	}
+	// schedules: the rps schedule is one object shared by all instances
+	if rapid.IntRange(0, 9).Draw(t, "rpsComposite") < 6 {
+		c.Rps = genRps(t, c.Shots)
+		c.RpsNested = rapid.Bool().Draw(t, "rpsNested")
+	}
+	if rapid.IntRange(0, 9).Draw(t, "gradualStartup") < 4 {
+		c.Startup = genStartup(t, c.Instances)
+	}
 	steer(&c, r)
 	return c
 }
@@ -361,6 +542,36 @@ func (c Case) validate() error {
 	}
 	if c.Instances < 1 || c.Shots < 1 {
 		return fmt.Errorf("instances and shots must be positive")
+	}
+	if len(c.Rps) > 0 {
+		if err := validateSections(c.Rps, "rps"); err != nil {
+			return err
+		}
+		if last := c.Rps[len(c.Rps)-1]; len(c.Rps) < 2 || last.Type == "unlimited" || finiteTokens(c.Rps) < c.Shots+5 {
+			return fmt.Errorf("rps sections must be >= 2, end with a counted section and hold at least %d tokens (the ammo limit ends the run)", c.Shots+5)
+		}
+	}
+	if st := c.Startup; st != nil {
+		switch st.Kind {
+		case "composite":
+			if err := validateSections(st.Sections, "startup"); err != nil {
+				return err
+			}
+			for _, s := range st.Sections {
+				if s.Type == "unlimited" {
+					return fmt.Errorf("startup sections are counted ones")
+				}
+			}
+			if len(st.Sections) < 2 || finiteTokens(st.Sections) != c.Instances {
+				return fmt.Errorf("startup sections must be >= 2 and hold one token per instance")
+			}
+		case "instance_step":
+			if st.From < 0 || st.Step < 1 || st.StepMs < 1 || st.From >= c.Instances || (c.Instances-st.From)%st.Step != 0 {
+				return fmt.Errorf("instance_step startup must reach the number of instances in whole steps")
+			}
+		default:
+			return fmt.Errorf("unknown startup kind %q", st.Kind)
+		}
 	}
 	return nil
 }
